@@ -28,6 +28,8 @@
 (* Deviation switches (TRUE / "private" for the code as it is):              *)
 (*   HelperRt      "ambient": the helper borrows the caller's runtime handle *)
 (*   KeepsTimeout  FALSE: the type-erased forwarder drops the timeout        *)
+(*   OneDeadline   FALSE: send and reply get a timeout(T) each (the second   *)
+(*                 starts when the message is accepted)                      *)
 (*                                                                         *)
 (* Every terminal state is printed as a CASE line: the configuration and the *)
 (* outcome.  tools/stages.py replays each case on real threads (vh          *)
@@ -37,6 +39,7 @@ EXTENDS Naturals, TLC, Json
 
 CONSTANTS HelperRt,        \* "private" | "ambient"
           KeepsTimeout,    \* BOOLEAN
+          OneDeadline,     \* BOOLEAN: FALSE = the helper starts a fresh timeout(T, ..) for the reply once the message is accepted
           T,               \* the timeout (ticks), >= 1
           MaxNow,          \* the clock stops here
           Emit             \* BOOLEAN: print CASE lines
@@ -73,9 +76,10 @@ VARIABLES cfg, now,
   handled,  \* our message has been handled
   replied,  \* "no" | "yes" | "dropped"
   alive,    \* actor alive
+  dl,       \* the helper's current deadline
   thawed    \* mode "thaw": the slot has been freed
 
-vars == <<cfg, now, cpc, hpc, hres, res, retAt, free, queued, handled, replied, alive, thawed>>
+vars == <<cfg, now, cpc, hpc, hres, res, retAt, free, queued, handled, replied, alive, thawed, dl>>
 
 EffTimed == cfg.form = "timed" /\ (cfg.via = "direct" \/ KeepsTimeout)
 
@@ -98,7 +102,7 @@ TimerDriven == HelperRt = "private" \/ cfg.ctx = "thread" \/ CallerRtDriven
 Init ==
   /\ cfg \in Cfgs
   /\ now = 0 /\ cpc = "call" /\ hpc = "none" /\ hres = "" /\ res = "" /\ retAt = 0
-  /\ free = (IF cfg.mode \in {"full", "thaw"} THEN 0 ELSE 1) /\ thawed = FALSE
+  /\ free = (IF cfg.mode \in {"full", "thaw"} THEN 0 ELSE 1) /\ thawed = FALSE /\ dl = T
   /\ queued = FALSE /\ handled = FALSE /\ replied = "no"
   /\ alive = (cfg.mode # "dead")
 
@@ -113,64 +117,65 @@ Call ==
             /\ IF cfg.ctx \in AsyncCtx
                  THEN Return("panic")             \* tokio: cannot block the current thread from within a runtime
                  ELSE cpc' = "bsend" /\ UNCHANGED <<res, retAt>>
-  /\ UNCHANGED <<cfg, thawed, now, hres, free, queued, handled, replied, alive>>
+  /\ UNCHANGED <<cfg, thawed, dl, now, hres, free, queued, handled, replied, alive>>
 
 BSend ==
   /\ cpc = "bsend"
   /\ \/ /\ ~alive /\ Return("send") /\ UNCHANGED <<free, queued>>
      \/ /\ alive /\ free > 0 /\ free' = free - 1 /\ queued' = TRUE
         /\ IF cfg.api = "tell" THEN Return("ok") ELSE cpc' = "brecv" /\ UNCHANGED <<res, retAt>>
-  /\ UNCHANGED <<cfg, thawed, now, hpc, hres, handled, replied, alive>>
+  /\ UNCHANGED <<cfg, thawed, dl, now, hpc, hres, handled, replied, alive>>
 
 BRecv ==
   /\ cpc = "brecv" /\ replied # "no"
   /\ Return(IF replied = "yes" THEN "ok" ELSE "recv")
-  /\ UNCHANGED <<cfg, thawed, now, hpc, hres, free, queued, handled, replied, alive>>
+  /\ UNCHANGED <<cfg, thawed, dl, now, hpc, hres, free, queued, handled, replied, alive>>
 
 Wait ==
   /\ cpc = "wait" /\ hpc = "done"
   /\ Return(hres) /\ hpc' = "gone"
-  /\ UNCHANGED <<cfg, thawed, now, hres, free, queued, handled, replied, alive>>
+  /\ UNCHANGED <<cfg, thawed, dl, now, hres, free, queued, handled, replied, alive>>
 
 \* ---- the helper thread: runs timeout(T, op) with block_on on its own thread
 HStart ==
   /\ hpc = "start" /\ hpc' = "send"
-  /\ UNCHANGED <<cfg, thawed, now, cpc, hres, res, retAt, free, queued, handled, replied, alive>>
+  /\ UNCHANGED <<cfg, thawed, dl, now, cpc, hres, res, retAt, free, queued, handled, replied, alive>>
 
 HSend ==
   /\ hpc = "send"
-  /\ \/ /\ ~alive /\ hpc' = "done" /\ hres' = "send" /\ UNCHANGED <<free, queued>>
+  /\ \/ /\ ~alive /\ hpc' = "done" /\ hres' = "send" /\ UNCHANGED <<free, queued, dl>>
      \/ /\ alive /\ free > 0 /\ free' = free - 1 /\ queued' = TRUE
         /\ IF cfg.api = "tell" THEN hpc' = "done" /\ hres' = "ok" ELSE hpc' = "reply" /\ UNCHANGED hres
+        /\ dl' = (IF OneDeadline THEN dl ELSE now + T)
   /\ UNCHANGED <<cfg, thawed, now, cpc, res, retAt, handled, replied, alive>>
 
 HReply ==
   /\ hpc = "reply" /\ replied # "no"
   /\ hpc' = "done" /\ hres' = (IF replied = "yes" THEN "ok" ELSE "recv")
-  /\ UNCHANGED <<cfg, thawed, now, cpc, res, retAt, free, queued, handled, replied, alive>>
+  /\ UNCHANGED <<cfg, thawed, dl, now, cpc, res, retAt, free, queued, handled, replied, alive>>
 
 HTimeout ==
-  /\ hpc \in {"send", "reply"} /\ now >= T /\ TimerDriven
+  /\ hpc \in {"send", "reply"} /\ now >= dl /\ TimerDriven
   /\ hpc' = "done" /\ hres' = "timeout"
-  /\ UNCHANGED <<cfg, thawed, now, cpc, res, retAt, free, queued, handled, replied, alive>>
+  /\ UNCHANGED <<cfg, thawed, dl, now, cpc, res, retAt, free, queued, handled, replied, alive>>
 
 \* ---- the actor
 Take ==
   /\ ActorRuns /\ cfg.mode = "responsive" /\ queued /\ ~handled
   /\ handled' = TRUE /\ free' = free + 1
   /\ replied' = (IF cfg.api = "ask" THEN "yes" ELSE replied)
-  /\ UNCHANGED <<cfg, thawed, now, cpc, hpc, hres, res, retAt, queued, alive>>
+  /\ UNCHANGED <<cfg, thawed, dl, now, cpc, hpc, hres, res, retAt, queued, alive>>
 
 Thaw ==
   /\ ActorRuns /\ cfg.mode = "thaw" /\ ~thawed /\ now >= Th
   /\ thawed' = TRUE /\ free' = free + 1
-  /\ UNCHANGED <<cfg, now, cpc, hpc, hres, res, retAt, queued, handled, replied, alive>>
+  /\ UNCHANGED <<cfg, dl, now, cpc, hpc, hres, res, retAt, queued, handled, replied, alive>>
 
 Tick ==
   /\ now < MaxNow
   /\ ~ENABLED (Call \/ BSend \/ BRecv \/ Wait \/ HStart \/ HSend \/ HReply \/ HTimeout \/ Take \/ Thaw)
   /\ now' = now + 1
-  /\ UNCHANGED <<cfg, thawed, cpc, hpc, hres, res, retAt, free, queued, handled, replied, alive>>
+  /\ UNCHANGED <<cfg, thawed, dl, cpc, hpc, hres, res, retAt, free, queued, handled, replied, alive>>
 
 Next == Call \/ BSend \/ BRecv \/ Wait \/ HStart \/ HSend \/ HReply \/ HTimeout \/ Take \/ Thaw \/ Tick
 
